@@ -145,6 +145,14 @@ FEATURES += [
     ("feat-string-consts", [], """out str[8] s = "\\t7"; out str[8] t; out unterminated str[4] u = "\\x011"; out int{unsigned, size 1} z = 165; hook h;
 parser { "a"; s = "\\n12"; h(); "b"; t = "C:\\\\"; h(); "c"; t = "\\x015\\x1f7"; u = "\\0007"; s = "x\\\\"; h(); "d"; t = "\\\\"; s += [t[0]]; h(); }"""),
 ]
+# an optional whose body starts with a loop that has start-of-iteration actions (the entry state is a copy of the loop head: shared action lists
+# would run them twice once -O3 folds the loop-back edge in), and a byte class that spells out all 256 values (a range test with nothing left to test)
+FEATURES += [
+    ("feat-optional-loop-start", [], """out int{unsigned, size 1} n = 0; hook h1; hook h2;
+parser { optional { loop { n = [n + 1]; h1(); case { "a" -> {} ";;" -> { break; } } } h2(); } "z"; }"""),
+    ("feat-allbytes", ["-O2"], """out int m = 0; hook h;
+parser { b/[00-ff]{2}/; m = 1; h(); b/[00-7f 80-ff]/; m = 2; h(); b/[01-ff]/; "!"; }"""),
+]
 # programs the compiler must reject in code generation (used by the checks that look at emitted text only)
 CODEGEN_REJECTED = [
     # an action-only conditional among the start actions that mentions $last: there is no byte yet
